@@ -49,6 +49,35 @@ fn everything_net(rng: &mut Rng) -> NetCfg {
     cfg
 }
 
+/// A stack of convolutions / deconvolutions that all keep the channel count, with kernels 1..3
+/// and paddings 0..2 chosen per layer: consecutive layers often work on scratch tensors of the
+/// same shape with different margins (what a per-thread reused buffer would get wrong).
+pub fn stack_net(rng: &mut Rng) -> NetCfg {
+    let c = rng.range(1, 2);
+    let (mut h, mut w) = (rng.range(3, 5), rng.range(3, 5));
+    let input = Sh::Sp(c, h, w);
+    let act = |rng: &mut Rng| *rng.pick(&[Act::Tanh, Act::Sigmoid, Act::Leaky, Act::Relu]);
+    let mut layers = Vec::new();
+    let depth = rng.range(3, 6);
+    while layers.len() < depth {
+        let conv = rng.chance(0.7);
+        let k = *rng.pick(&[1usize, 3, 3]);
+        let p = rng.range(0, 2);
+        let (nh, nw) = if conv { (h as i64 + 2 * p as i64 - k as i64 + 1, w as i64 + 2 * p as i64 - k as i64 + 1) } else { (h as i64 - 1 + k as i64 - 2 * p as i64, w as i64 - 1 + k as i64 - 2 * p as i64) };
+        if nh < 2 || nw < 2 || nh > 9 || nw > 9 {
+            continue;
+        }
+        let dropout = if rng.chance(0.25) { Some(0.5f32) } else { None };
+        layers.push(if conv { LCfg::Conv { filters: c, kernel: (k, k), stride: (1, 1), padding: (p, p), dilation: (1, 1), act: act(rng), dropout } } else { LCfg::Deconv { filters: c, kernel: (k, k), stride: (1, 1), padding: (p, p), act: act(rng), dropout } });
+        h = nh as usize;
+        w = nw as usize;
+    }
+    layers.push(LCfg::Pool { kernel: (2, 2), stride: (1, 1) });
+    layers.push(LCfg::Dense { n: rng.range(3, 5), act: Act::Tanh, bias: true, dropout: None });
+    layers.push(LCfg::Dense { n: rng.range(1, 3), act: *rng.pick(&[Act::Linear, Act::Sigmoid]), bias: true, dropout: None });
+    NetCfg::plain(input, layers)
+}
+
 #[derive(PartialEq)]
 struct Outcome {
     bits: Vec<u32>,
@@ -148,10 +177,10 @@ impl Monitor for C05 {
         4
     }
     fn gens(&self, tier: Tier) -> Vec<(&'static str, u64)> {
-        vec![("miri", 1), ("schedules", tier.pick(24, 600)), ("wide", tier.pick(4, 40))]
+        vec![("miri", 1), ("schedules", tier.pick(24, 600)), ("wide", tier.pick(4, 40)), ("stacks", tier.pick(8, 200))]
     }
     fn rule(&self) -> &'static str {
-        "case = a network with every layer kind (convolution, feedback block of convolution+deconvolution, deconvolution, max-pool, five dense layers, a skip connection across the block, two skip connections sharing their source, a loop connection over a dense layer, dropout on random layers), 24..64 training samples, batch 4..32, 2 epochs with 150..300 or 500..1300 validation inputs (2..21 chunks of 64, not a multiple of 64), followed by validate() and predict_batch() on the same inputs. The identical call is executed in a 1-thread pool without delays (reference) and in dedicated rayon pools of 2, 3, 4, 7, 16, 33 and 64 threads with the delay injector armed (random 0..300 us stalls at the entry of every per-sample forward pass, two delay seeds per pool size), plus once in an 8-thread pool while 16 busy threads starve the machine, plus a repetition of the reference. Every output - per-epoch train/validation loss and accuracy, all final weights, the validate() result, every predict_batch() output in order - must be bit-identical to the reference. Evidence that schedules differed: per training group the sample->worker assignment and the order in which the per-sample tasks started, taken from the event log; distinct = distinct (case, assignment/start-order) schedules observed. wide: the same protocol on networks whose dense layers have 4096..8200 inputs or outputs. Miri leg: /verif/miri under -Zmiri-many-seeds (4 seeds quick, 32 thorough): every seed must print the same bit patterns and Miri must report no undefined behaviour or data race."
+        "case = a network with every layer kind (convolution, feedback block of convolution+deconvolution, deconvolution, max-pool, five dense layers, a skip connection across the block, two skip connections sharing their source, a loop connection over a dense layer, dropout on random layers), 24..64 training samples, batch 4..32, 2 epochs with 150..300 or 500..1300 validation inputs (2..21 chunks of 64, not a multiple of 64), followed by validate() and predict_batch() on the same inputs. The identical call is executed in a 1-thread pool without delays (reference) and in dedicated rayon pools of 2, 3, 4, 7, 16, 33 and 64 threads with the delay injector armed (random 0..300 us stalls at the entry of every per-sample forward pass, two delay seeds per pool size), plus once in an 8-thread pool while 16 busy threads starve the machine, plus a repetition of the reference. Every output - per-epoch train/validation loss and accuracy, all final weights, the validate() result, every predict_batch() output in order - must be bit-identical to the reference. Evidence that schedules differed: per training group the sample->worker assignment and the order in which the per-sample tasks started, taken from the event log; distinct = distinct (case, assignment/start-order) schedules observed. stacks: the same protocol on stacks of 3..6 convolutions / deconvolutions with one channel count, kernels 1 or 3 and paddings 0..2 per layer (consecutive layers work on intermediate tensors of equal shape with different margins), max-pool, two dense layers. wide: the same protocol on networks whose dense layers have 4096..8200 inputs or outputs. Miri leg: /verif/miri under -Zmiri-many-seeds (4 seeds quick, 32 thorough): every seed must print the same bit patterns and Miri must report no undefined behaviour or data race."
     }
     fn assumptions(&self) -> Vec<&'static str> {
         vec![
@@ -173,6 +202,14 @@ impl Monitor for C05 {
             } else {
                 NetCfg::plain(Sh::Flat(6), vec![LCfg::Dense { n: big, act: Act::Tanh, bias: true, dropout: None }, LCfg::Dense { n: 2, act: Act::Linear, bias: true, dropout: None }])
             }
+        } else if gen == "stacks" {
+            let c = stack_net(&mut rng);
+            if c.shapes().is_err() {
+                let mut out = Out::new("invalid stack".into());
+                out.nontrivial = false;
+                return out;
+            }
+            c
         } else {
             everything_net(&mut rng)
         };
@@ -208,7 +245,7 @@ impl Monitor for C05 {
         let opt = gen_optimizer(&mut rng, (idx % 5) as usize);
         let desc = format!("{} | {} | train {} batch {} eval {}", cfg.describe(), opt.describe(), n_train, batch, n_eval);
         let mut out = Out::new(desc.clone());
-        out.count(if wide { "wide_layer_cases" } else { "schedule_cases" }, 1);
+        out.count(if wide { "wide_layer_cases" } else if gen == "stacks" { "stack_cases" } else { "schedule_cases" }, 1);
         let ttags = train.tags();
         let (xr, tr) = (train.x_refs(), train.t_refs());
         let (vxr, vtr) = (eval.x_refs(), eval.t_refs());
